@@ -413,7 +413,8 @@ def real_runs(chk):
             if state['armed'] and state['n'] == 7:
                 raise KeyError("injected")
             return None
-        hf = RollPass.OutProfile.flow_stress(bomb, tryfirst=True)
+        from pyroll.core import Profile as _FarBase       # registered on the far base class of all profiles (as a plug-in would), removed there again
+        hf = _FarBase.flow_stress(bomb, tryfirst=True)
         try:
             try:
                 s4.solve(ip())
@@ -421,8 +422,12 @@ def real_runs(chk):
             except Exception:
                 aborted = True
         finally:
-            RollPass.OutProfile.flow_stress.remove_function(hf)
+            _FarBase.flow_stress.remove_function(hf)
         from pyroll.core.hooks import HookFunction
+        if not aborted and not chk.failures:
+            chk.fail('late-registration', f"an implementation registered (tryfirst) on Profile.flow_stress - the far base class of every profile - after other sequences had been "
+                     f"solved was consulted {state['n']} times during a solve (it raises at its 7th call): registrations on base classes must reach every subclass at once",
+                     {'registered_on': 'Profile.flow_stress'})
         s4.solve(ip())
         after = numeric_state(s4)
         if aborted and any(abs(a - b) > 5 * prec * max(abs(b), 1e-12) for a, b in zip(after, base)):
